@@ -60,8 +60,13 @@ func (hs *clientHandshakeStateTLS13) handshake() error {
 	}
 
 	// Consistency check on the presence of a keyShare and its parameters.
-	// [uTLS] a hello whose only generated key share is a hybrid one holds no classical key
-	if hs.keyShareKeys == nil || (hs.keyShareKeys.ecdhe == nil && hs.keyShareKeys.mlkemEcdhe == nil) || len(hs.hello.keyShares) == 0 {
+	// [uTLS] a hello whose only generated key share is a hybrid one holds no classical key.
+	// A uTLS spec may also send no usable key share at all (an empty key_share list requests a
+	// HelloRetryRequest, RFC 8446, Section 4.2.8): when the server answers with a
+	// HelloRetryRequest the key is generated in processHelloRetryRequest, so the check
+	// applies to a plain ServerHello only.
+	isHRR := bytes.Equal(hs.serverHello.random, helloRetryRequestRandom)
+	if !isHRR && (hs.keyShareKeys == nil || (hs.keyShareKeys.ecdhe == nil && hs.keyShareKeys.mlkemEcdhe == nil) || len(hs.hello.keyShares) == 0) {
 		return c.sendAlert(alertInternalError)
 	}
 
